@@ -50,7 +50,29 @@ def reflection_schema():
     return _cache["s"]
 
 
-def use_tree(fcp, r):
+def unrolled_leaves(decls):
+    """Upper bound of the number of leaves the packed encoder creates when it unrolls the arrays of
+    the largest struct (array sizes multiply): consumers that unroll are skipped for huge schemas."""
+    sch = S.Sch(decls)
+    memo = {}
+
+    def count(t):
+        k = t[0]
+        if k == "arr":
+            return t[2] * count(t[1])
+        if k in ("dyn", "opt"):
+            return count(t[1])
+        if k == "struct":
+            if t[1] not in memo:
+                memo[t[1]] = 0
+                memo[t[1]] = sum(count(f["type"]) for f in sch.structs.get(t[1], []))
+            return memo[t[1]]
+        return 1
+
+    return max([count(("struct", n)) for n in sch.structs] or [0])
+
+
+def use_tree(fcp, r, small=True):
     """History: other consumers use the SAME tree object before it is reflected (verification,
     packed layouts, every generator).  They may fail on arbitrary schemas; that is ignored - the
     reflection taken afterwards must still describe the schema as declared."""
@@ -62,7 +84,7 @@ def use_tree(fcp, r):
     log = []
     tmp = env.scratch("c12use")
     try:
-        ops = ["verify", "layout", "dbc", "can_c", "cpp", "nop"]
+        ops = ["verify", "layout", "dbc", "can_c", "cpp", "nop"] if small else ["verify", "cpp", "nop"]
         r.shuffle(ops)
         for op in ops[: r.randint(2, 6)]:
             try:
@@ -95,7 +117,7 @@ def check(run, decls, text, feats_sig=None, history_rng=None):
         return
     fcp = res.unwrap()
     if history_rng is not None:
-        case["used_before_reflection"] = use_tree(fcp, history_rng)
+        case["used_before_reflection"] = use_tree(fcp, history_rng, small=unrolled_leaves(decls) <= 3000)
         run.count("reflections_after_other_uses")
     try:
         rec = fcp.reflection()
